@@ -48,7 +48,8 @@ func (c *Conn) maybeSend(now time.Time) (next time.Time) {
 		// We may still send ACKs, even if congestion control or pacing limit sending.
 
 		// Prepare to write a datagram of at most maxSendSize bytes.
-		c.w.reset(c.loss.maxSendSize())
+		maxSize := c.loss.maxSendSize()
+		c.w.reset(maxSize)
 
 		dstConnID, ok := c.connIDState.dstConnID()
 		if !ok {
@@ -72,7 +73,17 @@ func (c *Conn) maybeSend(now time.Time) (next time.Time) {
 				extra:     c.retryToken,
 			}
 			c.w.startProtectedLongHeaderPacket(pnumMaxAcked, p)
-			c.appendFrames(now, initialSpace, pnum, limit)
+			initialLimit := limit
+			if c.side == serverSide && maxSize < paddedInitialDatagramSize && initialLimit == ccOK {
+				// A datagram containing an ack-eliciting server Initial packet
+				// must be padded to paddedInitialDatagramSize bytes, which is
+				// more than the anti-amplification limit permits us to send.
+				// Send nothing but ACKs in the Initial space until the client
+				// sends us more data.
+				// https://www.rfc-editor.org/rfc/rfc9000#section-8.1-2
+				initialLimit = ccLimited
+			}
+			c.appendFrames(now, initialSpace, pnum, initialLimit)
 			if logPackets {
 				logSentPacket(c, packetTypeInitial, pnum, p.srcConnID, p.dstConnID, c.w.payload())
 			}
